@@ -10,13 +10,15 @@ git -C /repo worktree add -q "$WT" HEAD || exit 3
 cleanup() { git -C /repo worktree remove --force "$WT" 2>/dev/null; rm -rf "$WT"; }
 trap cleanup EXIT
 export CARGO_TARGET_DIR=/tmp/seedverify-target
+FEAT=""; [ "$CRATE" = "mpd_protocol" ] && FEAT="--features async"
+[ -f "$D/features.txt" ] && FEAT="--features $(cat $D/features.txt)"
 cd "$WT"
 mkdir -p $CRATE/tests && cp "$D/demo_test.rs" $CRATE/tests/seeded_demo.rs
 echo "--- demo on the unchanged tree (must pass)"
-if cargo test --offline -q -p $CRATE --test seeded_demo >/tmp/seedverify.log 2>&1; then echo "demo passes without the change: OK"; else echo "DEMO FAILS WITHOUT THE CHANGE"; tail -15 /tmp/seedverify.log; fi
+if cargo test --offline -q -p $CRATE $FEAT --test seeded_demo >/tmp/seedverify.log 2>&1; then echo "demo passes without the change: OK"; else echo "DEMO FAILS WITHOUT THE CHANGE"; tail -15 /tmp/seedverify.log; fi
 if ! git apply "$D/patch.diff"; then echo "PATCH DOES NOT APPLY"; exit 1; fi
 echo "--- demo with the change (must fail)"
-if cargo test --offline -q -p $CRATE --test seeded_demo >/tmp/seedverify.log 2>&1; then echo "DEMO PASSES WITH THE CHANGE"; else echo "demo fails with the change: OK"; grep -E "panicked|assert" /tmp/seedverify.log | head -3; fi
+if cargo test --offline -q -p $CRATE $FEAT --test seeded_demo >/tmp/seedverify.log 2>&1; then echo "DEMO PASSES WITH THE CHANGE"; else echo "demo fails with the change: OK"; grep -E "panicked|assert" /tmp/seedverify.log | head -3; fi
 rm -f $CRATE/tests/seeded_demo.rs
 echo "--- existing suite with the change (must pass)"
 cargo test --workspace --no-fail-fast --offline 2>&1 | grep -E "^test result|FAILED|^error" | head -8
